@@ -56,6 +56,7 @@
 //Rust hates greek characters
 #![allow(confusable_idents)]
 #![warn(missing_docs)]
+#![cfg_attr(feature = "verif-hooks", allow(missing_docs))]
 
 const VERSION: &str = env!("CARGO_PKG_VERSION");
 
